@@ -184,7 +184,7 @@ func runParseWorker(cases []*parseCase) {
 }
 
 var c04Alphabet = []string{"a", "b", "x", "f", "1", "2.5", "1e3", "\"s\"", "'q i'", "(", ")", "[", "]", "{", "}", ",", ":", ";", ".", "+", "-", "*", "/", "^", "=", "<", "<=", "->", "!", "&", "|", "~",
-	"let", "func", "if", "then", "else", "switch", "case", "default", "try", "catch", " ", "\n", "\t", "//c\n", "/*c*/", "/*", "*/", "\"", "'", "\\", "²", "×", "•", "\x00", "\xff", "\xc3", "é", "€", "𝔘", "true", "pi"}
+	"let", "func", "if", "then", "else", "switch", "case", "default", "try", "catch", " ", "\n", "\t", "//c\n", "/*c*/", "/*", "*/", "\"", "'", "''", "\"\"", "\\", "²", "×", "•", "\x00", "\xff", "\xc3", "é", "€", "𝔘", "true", "pi"}
 
 func c04Valid(r *rand.Rand) string {
 	g := newProgGen(r)
@@ -200,13 +200,14 @@ var c04ConstFaults = []string{"1/0", "1%0", "[1][5]", "[1][0-1]", "(f->f(f))(f->
 
 var c04FaultContexts = []string{"@", "let q=@; 1", "let q=@; q", "func g(n) @; 1", "func g(n) n+@; g(1)", "func g(n) @; g(1)", "[@]", "{k:@}", "(y->@)", "(y->@)(1)", "if @ then 1 else 2",
 	"if true then 1 else @", "try @ catch 1", "let q=try @ catch 2; q", "switch @ case 1: 1 default 2", "switch 1 case 1: @ default 2", "a+@", "[1,2].map(e->@)", "let h=(y->@); h(1)",
-	"let q=[@]; let r={k:@}; 1", "func g(n) let z=@; z; 1", "let q=(let z=@; z); q", "sin(@)", "sqr(@)", "a(@)", "@(@)", "@.x", "@[0]", "let q=1; let q=@; q"}
+	"let q=[@]; let r={k:@}; 1", "func g(n) let z=@; z; 1", "let q=(let z=@; z); q", "sin(@)", "sqr(@)", "a(@)", "@(@)", "@.x", "@[0]", "let q=1; let q=@; q", "func f('') f + @; f(a)", "(''-> @)(1)", "let '' = @; ''"}
 
 // c04CalleeSoup: syntactically plausible programs whose callee, receiver or argument list the generator
 // cannot compile: an atom followed by postfix forms
 func c04CalleeSoup(r *rand.Rand) string {
 	atoms := []string{"1", "1.5", "\"s\"", "[1]", "[]", "{k:a}", "{k:1}", "{}", "a", "b", "nosuch", "sin", "sqr", "sqrt", "abs", "min", "list", "string", "throw", "sprintf", "pi", "true", "false",
-		"(x->x)", "((x,y)->x)", "(x->y->x)", "(a)", "(1)", "-a", "!a", "if a then sin else sqr", "try a catch 1", "e", "this", "let z=1; z"}
+		"(x->x)", "((x,y)->x)", "(x->y->x)", "(a)", "(1)", "-a", "!a", "if a then sin else sqr", "try a catch 1", "e", "this", "let z=1; z",
+		"''", "(''->sin)", "(''->''+a)", "(('', x)->abs)", "[1,2].map(''->abs)", "{'':1}", "{'':sin}"}
 	pick := func(l []string) string { return l[r.Intn(len(l))] }
 	var b strings.Builder
 	b.WriteString(pick(atoms))
@@ -280,7 +281,7 @@ func c04Mutate(r *rand.Rand, s string) string {
 }
 
 func runC04(c *Ctx) {
-	c.rule = "byte strings up to 64 KiB: random bytes, token soups over the language alphabet (incl. comment openers, quotes, aliases, NUL, invalid UTF-8), mutations (delete/insert/duplicate/swap/truncate/random byte) of generated valid programs, unterminated strings/comments/quoted identifiers at end of input, deep nesting up to 30000, well-formed programs whose constant sub-expressions fail while being folded inside Parse (42 fault sources x 29 contexts) and programs whose callee/receiver/arguments the generator cannot compile (Generate error paths), x 9 configurations (value generator with and without comments and in map mode, the bool and the comfort-mode float example, four generic parsers incl. a unary operator that is the highest binary operator, prefix-overlapping multi-character operators, text operators); each input runs in a watchdog worker (2 s + 1 ms/byte; a case on which it fires runs again alone with ten times that); a panic, timeout or dead worker is a violation; non-trivial = distinct (configuration, input) with at least 3 bytes"
+	c.rule = "byte strings up to 64 KiB: random bytes, token soups over the language alphabet (incl. comment openers, quotes, aliases, NUL, invalid UTF-8), mutations (delete/insert/duplicate/swap/truncate/random byte) of generated valid programs, unterminated strings/comments/quoted identifiers at end of input, deep nesting up to 30000 (also on error paths: 9 shapes in which every level handles the error of the level below), well-formed programs whose constant sub-expressions fail while being folded inside Parse (42 fault sources x 29 contexts) and programs whose callee/receiver/arguments the generator cannot compile (Generate error paths), x 9 configurations (value generator with and without comments and in map mode, the bool and the comfort-mode float example, four generic parsers incl. a unary operator that is the highest binary operator, prefix-overlapping multi-character operators, text operators); each input runs in a watchdog worker (2 s + 1 ms/byte; a case on which it fires runs again alone with ten times that); a panic, timeout or dead worker is a violation; non-trivial = distinct (configuration, input) with at least 3 bytes"
 	c.assume = append(c.assume, "wall-clock linearity, Go stack growth on deep nesting and goroutine scheduling are runtime behaviour observed by the watchdog")
 	n := c.Pick(24000, 600000)
 	big := c.Pick(60, 800)
@@ -307,6 +308,27 @@ func runC04(c *Ctx) {
 			src := strings.ReplaceAll(ctx, "@", f)
 			for ci := 0; ci < ncfg; ci++ {
 				cases = append(cases, &parseCase{id: itoa(len(cases)), cfg: ci, input: []byte(src), class: "const-fault"})
+			}
+		}
+	}
+	// constant arithmetic on boundary operands (folded while parsing: a loop that does not end there hangs Parse)
+	{
+		bounds := []string{"0", "1", "2", "(0 - 1)", "(0 - 2)", "63", "64", "(0 - 63)", "(0 - 64)", "9223372036854775807", "(0 - 9223372036854775807 - 1)", "0.5", "(0 - 0.5)", "1e308", "(1.0 / 0.0)", "1e-320", "3.0"}
+		opsB := []string{"^", "<<", ">>", "%", "/", "*", "+", "-", "=", "<", "~"}
+		for _, op := range opsB {
+			for _, x := range bounds {
+				for _, y := range bounds {
+					src := x + " " + op + " " + y
+					for _, ci := range []int{0, 4} { // the value generator and the comfort-mode float example
+						cases = append(cases, &parseCase{id: itoa(len(cases)), cfg: ci, input: []byte(src), class: "const-arith"})
+					}
+				}
+			}
+		}
+		for _, fn := range []string{"sqrt", "abs", "ln", "exp", "int", "float", "sin", "list", "numbers", "string", "sqr", "round", "floor", "ceil"} {
+			for _, x := range bounds {
+				cases = append(cases, &parseCase{id: itoa(len(cases)), cfg: 0, input: []byte(fn + "(" + x + ")"), class: "const-arith"})
+				cases = append(cases, &parseCase{id: itoa(len(cases)), cfg: 0, input: []byte("let q = " + fn + "(" + x + "); q"), class: "const-arith"})
 			}
 		}
 	}
@@ -347,8 +369,24 @@ func runC04(c *Ctx) {
 			add("unterminated", v+[]string{" + \"abc", " + 'abc", " /* abc", " // abc", " + \"abc\\", " /* abc *"}[c.rng.Intn(6)])
 		}
 	}
+	// two listed findings (see known_findings.json): constant folding runs the program's own computation inside Parse
+	cases = append(cases, &parseCase{id: itoa(len(cases)), cfg: 0, input: []byte("numbers(30000000000).map(e->e+1).sum()"), class: "const-fold-unbounded-computation"})
+	cases = append(cases, &parseCase{id: itoa(len(cases)), cfg: 0, input: []byte("(f->[1].map(x->f(f))[0])(f->[1].map(x->f(f))[0])"), class: "const-fold-recursion-through-fresh-stacks"})
+	for _, d := range []int{2000, 20000} {
+		for _, src := range []string{"(x->let y=x;let y=x;y)" + strings.Repeat("(1)", d), strings.Repeat("sin(", d) + "nosuch" + strings.Repeat(")", d), "nosuch" + strings.Repeat(".a", d),
+			strings.Repeat("[", d) + "nosuch(1)" + strings.Repeat("]", d), "nosuch" + strings.Repeat("(1)", d), strings.Repeat("x->", d/4) + "nosuch(x)",
+			strings.Repeat("{k:", d/2) + "nosuch" + strings.Repeat("}", d/2), strings.Repeat("if nosuch then 1 else ", d/8) + "2", strings.Repeat("try ", d/4) + "nosuch" + strings.Repeat(" catch 1", d/4)} {
+			for _, ci := range []int{0, 4} {
+				in := src
+				if len(in) > 65536 {
+					in = in[:65536]
+				}
+				cases = append(cases, &parseCase{id: itoa(len(cases)), cfg: ci, input: []byte(in), class: "deep-error-nest"})
+			}
+		}
+	}
 	for i := 0; i < big; i++ {
-		switch c.rng.Intn(7) {
+		switch c.rng.Intn(8) {
 		case 0:
 			d := []int{1000, 5000, 30000}[c.rng.Intn(3)]
 			add("deep-parens", strings.Repeat("(", d)+"a"+strings.Repeat(")", d))
@@ -368,6 +406,23 @@ func runC04(c *Ctx) {
 			}
 			add("soup-64k", sb.String())
 		case 5:
+			// deep nesting on an ERROR path: every level handles (wraps, documents, re-generates) the error of the level below
+			d := []int{500, 2000, 8000, 20000}[c.rng.Intn(4)]
+			switch c.rng.Intn(6) {
+			case 0:
+				add("deep-error-nest", "(x->let y=x;let y=x;y)"+strings.Repeat("(1)", d))
+			case 1:
+				add("deep-error-nest", strings.Repeat("sin(", d)+"nosuch"+strings.Repeat(")", d))
+			case 2:
+				add("deep-error-nest", "nosuch"+strings.Repeat(".a", d))
+			case 3:
+				add("deep-error-nest", strings.Repeat("[", d)+"nosuch(1)"+strings.Repeat("]", d))
+			case 4:
+				add("deep-error-nest", "nosuch"+strings.Repeat("(1)", d))
+			default:
+				add("deep-error-nest", strings.Repeat("x->", d/4)+"nosuch(x)")
+			}
+		case 6:
 			add("long-string", "\""+strings.Repeat("x\\n", 20000))
 		default:
 			add("long-comment", "1 /*"+strings.Repeat("* /", 20000))
@@ -393,9 +448,9 @@ func runC04(c *Ctx) {
 			again = append(again, pc)
 		}
 	}
-	confirmed := false // a retried case hung again: the remaining ones are hangs too, no need to wait for each of them
+	confirmed := map[string]int{} // retried cases of a class that hung again: after two the rest of the class is not waited for
 	for _, pc := range again {
-		if confirmed {
+		if confirmed[pc.class] >= 2 {
 			pc.result = "TIMEOUT"
 			continue
 		}
@@ -404,7 +459,7 @@ func runC04(c *Ctx) {
 		runParseWorker([]*parseCase{pc})
 		c04Slow = false
 		if pc.result == "TIMEOUT" {
-			confirmed = true
+			confirmed[pc.class]++
 		}
 	}
 	cfgs := c04Configs()
